@@ -144,7 +144,11 @@ class Walk(object):
         return s == "self._data" or (isinstance(e, ast.Name) and e.id in self.data_aliases)
 
     def left_sibling_child(self, e):
-        """data[index - 1].child"""
+        """data[index - 1].child, possibly through a local bound to it"""
+        if isinstance(e, ast.Name):
+            defs = [a.value for a in ast.walk(self.fn) if isinstance(a, ast.Assign) and len(a.targets) == 1
+                    and isinstance(a.targets[0], ast.Name) and a.targets[0].id == e.id]
+            return len(defs) == 1 and self.left_sibling_child(defs[0])
         if isinstance(e, ast.Attribute) and e.attr == "child" and isinstance(e.value, ast.Subscript) \
                 and self.is_data(e.value.value):
             return pyfront.unparse(e.value.slice).replace(" ", "") == "%s-1" % self.idx
@@ -243,8 +247,9 @@ def _anchor(fn):
         if isinstance(st, ast.Assign) and isinstance(st.value, ast.Call) and isinstance(st.value.func, ast.Attribute) \
                 and st.value.func.attr == "_del" and isinstance(st.targets[0], ast.Tuple) \
                 and isinstance(st.targets[0].elts[0], ast.Name):
-            if isinstance(st.value.func.value, ast.Name) and st.value.func.value.id == child:
-                return i, st.targets[0].elts[0].id, idx, child
+            if isinstance(st.value.func.value, ast.Name):
+                # the child is the object the delete is delegated to
+                return i, st.targets[0].elts[0].id, idx, st.value.func.value.id
     raise AnalysisError("anchor vanished: `flag, value = child._del(key)` in _Tree._del")
 
 
